@@ -297,14 +297,33 @@ Definition chain_ok_key (c : sched_case) (recs : list rrec) (k : key) : bool :=
   | None => false
   end.
 
-Definition chain_ok (c : sched_case) : bool :=
+(* finding C01-F1: a create (or Update with expected revision 0) is refused although its key was
+   deleted or absent all the time, because the asynchronous repair re-stamped the key's tombstone with a
+   revision above the creator's while the create was in flight (naive.go:83 compares revisions) *)
+Definition f1_signature (recs : list rrec) (r : rrec) : bool :=
+  match rr_q r with
+  | RqCreate k _ | RqUpdate k _ 0 =>
+      existsb (fun x => is_rewrite (rr_q x) && resp_succ (rr_resp x) && (req_key (rr_q x) =? k)
+                        && match rr_commit x with
+                           | Some cst => Nat.leb (rr_inv r) cst && Nat.leb cst (rr_ret r)
+                           | None => false
+                           end) recs
+  | _ => false
+  end.
+
+Definition chain_part (c : sched_case) : bool :=
   let recs := case_records c in
-  records_complete c recs
-  && forallb (chain_ok_key c recs) (case_keys c)
-  && forallb (justified c recs) recs.
+  records_complete c recs && forallb (chain_ok_key c recs) (case_keys c).
+
+Definition chain_ok (c : sched_case) : bool :=
+  chain_part c && forallb (justified c (case_records c)) (case_records c).
 
 Definition c01_check := sched_check.
-Definition c01_oracle (c : sched_case) : option N := ok_if (chain_ok c).
+Definition c01_oracle (c : sched_case) : option N :=
+  let recs := case_records c in
+  if chain_ok c then None
+  else if chain_part c && forallb (fun r => justified c recs r || f1_signature recs r) recs then Some 1
+  else Some 0.
 
 (* ---------- validity of a case (what the generator guarantees) ---------- *)
 
